@@ -583,6 +583,16 @@ def up1(x, floor=0.0):
     return x
 
 
+def up10(x, floor):
+    """per-check noise figures: upper bound rounded up to the next power of ten (the deviation between two runs of
+    the *same* truncated algorithm jitters by tens of percent from run to run)"""
+    if isinstance(x, dict):
+        return {k: up10(v, floor) for k, v in x.items()}
+    if isinstance(x, float) and x > 0:
+        return float(f"{10.0 ** np.ceil(np.log10(max(x, floor)) - 1e-9):.1g}")
+    return x
+
+
 def ckey(c):
     return tuple((k, str(c[k])) for k in sorted(c))
 
@@ -598,12 +608,20 @@ def run(tier, seed):
     failing = {}
 
     def note(name, dev, tol):
-        """head-room statistics over the comparisons that hold (violating ones are reported as violations)"""
+        """head-room statistics over the cases without any violation (violating cases are reported as violations and
+        counted in comparisons_over_tolerance_by_check / cases_excluded_from_headroom_statistics)"""
         if dev > tol:
             failing[name] = failing.get(name, 0) + 1
             return
         maxdev[name] = max(maxdev.get(name, 0.0), dev)
         maxrel[name] = max(maxrel.get(name, 0.0), dev / tol)
+
+    note_all = note
+    excluded = [0]
+
+    def note_failing_only(name, dev, tol):
+        if dev > tol:
+            failing[name] = failing.get(name, 0) + 1
 
     nontrivial = set()
     monitored = 0
@@ -630,6 +648,11 @@ def run(tier, seed):
         if "x_state_dev" not in r:
             continue
         tol_tr = C_TRUNC * c["epsrel"] * max(c["n"], 1)
+        if r["bad"]:
+            excluded[0] += 1
+            note = note_failing_only
+        else:
+            note = note_all
         note("x_state(trunc)", r["x_state_dev"], tol_tr)
         note("x_field(trunc)", r["x_field_dev"], tol_tr)
         for tag in ("mft", "ptroute"):
@@ -684,6 +707,11 @@ def run(tier, seed):
             rep.add(Violation(cls_of(c, sig), f"{case_str(c)}: {detail}", dict(c, want=sig)))
         if "state_dev" not in r:
             continue
+        if r["bad"]:
+            excluded[0] += 1
+            note = note_failing_only
+        else:
+            note = note_all
         note(f"exact_{c['route']}_state", r["state_dev"], TOL_EXACT)
         note(f"exact_{c['route']}_field", r["field_dev"], TOL_EXACT)
         tr, he, me, cnt = r["mon"]
@@ -728,9 +756,10 @@ def run(tier, seed):
                      f"states: {TOL_HEUN}*n*max(1,|a|); record_all=False vs True: 1e-12",
         "max_dev_over_tol": up1(worst),
         "worst_check": wname,
-        "max_dev_by_check": up1(maxdev, 1e-13),           # upper bounds; pure rounding noise reported as 1e-13
-        "max_dev_over_tol_by_check": up1(maxrel, 1e-3),
+        "max_dev_by_check": up10(maxdev, 1e-13),          # upper bounds; pure rounding noise reported as 1e-13
+        "max_dev_over_tol_by_check": up10(maxrel, 1e-3),
         "comparisons_over_tolerance_by_check": failing,
+        "cases_excluded_from_headroom_statistics": excluded[0],
         "min_effect_sizes": r3(min_eff),
         "cases_with_bath_influence_gt_0.02": n_bath_active,
         "bath_influence_min_max_by_n(ohmic vs alpha=0 partner)": r3(infl_by_n),
